@@ -11,7 +11,8 @@ DATA = [0, 1, 5, 7, 13, 255, 0x7FFFFFFF, 0x80000000, 0xFFFFFFFF, 0x100000001]
 class C19(Prop):
     id = "C19"
     title = "Cross-thread notifications are never lost or merged; shutdown terminates"
-    lean_modules = ["NV.C19.Props", "NV.C19.Global", "NV.C19.Witness", "NV.C19.Negative"]
+    lean_modules = ["NV.C19.Props", "NV.C19.PropsExt", "NV.C19.BlockedCounters", "NV.C19.Global", "NV.C19.Witness",
+                    "NV.C19.WitnessPoll", "NV.C19.Negative"]
     theorems = ["NV.C19.model_satisfies_spec", "NV.C19.posts_delivered_exactly_once", "NV.C19.posts_multiset_preserved",
                 "NV.C19.post_refused_only_when_full", "NV.C19.no_lost_wakeup",
                 "NV.C19.createProg_eq", "NV.C19.wrapper_stores_eq", "NV.C19.wait_order_eq", "NV.C19.post_order_eq",
@@ -19,7 +20,19 @@ class C19(Prop):
                 "NV.C19.timed_join_returns_true_after_stop", "NV.C19.posted_completion_wakes_next_wait",
                 "NV.C19.queue_fifo_exactly_once", "NV.C19.queue_drop_policy", "NV.C19.queue_dequeue_oldest",
                 "NV.C19.timed_join_bounded", "NV.C19.timed_join_progress",
-                "NV.C19.timer_stop_terminates", "NV.C19.timer_stop_reaches_join", "NV.C19.no_callback_after_stop"]
+                "NV.C19.timer_stop_terminates", "NV.C19.timer_stop_reaches_join", "NV.C19.no_callback_after_stop",
+                # extension round: bridging lemmas of the extended translator
+                "NV.C19.poll_backend_eq", "NV.C19.ring_shape_eq", "NV.C19.queue_shape_eq", "NV.C19.clear_signals_eq",
+                "NV.C19.console_loop_eq", "NV.C19.console_queue_drops_oldest", "NV.C19.timer_order_eq",
+                "NV.C19.hb_protocol_eq", "NV.C19.join_loop_eq",
+                # ... and the theorems over all schedules
+                "NV.C19.bell_value_irrelevant", "NV.C19.blocked_writers_fifo_exactly_once",
+                "NV.C19.blocked_writers_counters",
+                "NV.C19.no_writer_left_asleep", "NV.C19.waiting_writer_wakes", "NV.C19.woken_writer_pushes",
+                "NV.C19.drained_queue_releases_a_writer", "NV.C19.drop_oldest_never_blocks",
+                "NV.C19.console_worker_exits_after_stop", "NV.C19.console_worker_hangs_on_block_writer_queue",
+                "NV.C19.console_chunk_enqueued_before_completion", "NV.C19.tick_never_lost",
+                "NV.C19.owed_tick_starts_round"]
     # Lean-checked counterexamples of the full statements on the code as it was before the fix: commits
     witness_theorems = ["NV.C19.Old.eventfd_merges_posts", "NV.C19.Old.not_postsDeliveredFull",
                         "NV.C19.Old.eventfd_loses_zero_post", "NV.C19.Old.posts_delivered_partial",
@@ -27,7 +40,13 @@ class C19(Prop):
                         "NV.C19.Old.join_hangs",
                         "NV.C19.Swapped.wakeup_erased", "NV.C19.Swapped.next_wait_sleeps", "NV.C19.Swapped.not_noLostWakeup",
                         "NV.C19.LateStore.state_stuck_running", "NV.C19.LateStore.stuck_forever",
-                        "NV.C19.LateStore.join_times_out", "NV.C19.LateStore.not_stateStopped"]
+                        "NV.C19.LateStore.join_times_out", "NV.C19.LateStore.not_stateStopped",
+                        "NV.C19.OldPoll.wakeup_shifts_stream", "NV.C19.OldPoll.wakeup_shifts_stream_lost",
+                        "NV.C19.OldPoll.beyond_max_dropped", "NV.C19.OldPoll.not_postsDeliveredFull",
+                        "NV.C19.OldPoll.wide_key_cut", "NV.C19.OldPoll.posts_delivered_partial",
+                        "NV.C19.ClearOld.writer_left_asleep", "NV.C19.ClearOld.not_noWriterLeftAsleepFull",
+                        "NV.C19.ClearOld.stays_asleep", "NV.C19.HbOld.tick_swallowed",
+                        "NV.C19.HbOld.backend_sleeps_on_tick"]
     consts = [("completionRingSize", "COMPLETION_RING_SIZE"),
               ("queueDropOldest", "ASYNC_QUEUE_DROP_OLDEST"),
               ("queueBlockWriter", "ASYNC_QUEUE_BLOCK_WRITER"),
@@ -46,30 +65,50 @@ class C19(Prop):
     search_n = 400
     design_ref = "5/C19"
     technique = ("Lean 4 proof over all schedules (induction on the interleaving of atomic actions) + translator-generated "
-                 "constants + model/implementation correspondence on sequentialised schedules + real multi-thread runs "
+                 "constants, comparison operators and statement orders (regex over the comment-stripped function bodies, "
+                 "bridging lemmas as obligations) + model/implementation correspondence on sequentialised schedules for "
+                 "BOTH POSIX back ends (epoll, and the poll back end compiled on Linux) + real multi-thread runs "
                  "+ ThreadSanitizer (runtime part)")
-    level_text = ("Lean 4 theorems about executable models of the epoll event loop (eventfd doorbell + completion ring), "
-                  "async_queue (ring indices, drop-oldest / block-writer / fail), async_worker (create, thread wrapper, "
-                  "signal_stop, timed join) and the portable timer (stop flag, timed condition wait, join), quantified over "
-                  "every scheduler choice; the models are tied to the source by regenerated constants and by running the "
-                  "real code and the model on the same sequentialised schedules (identical traces); the Lean oracle judges "
-                  "every implementation trace, including real multi-thread runs")
-    level_note = ("trusted: Lean kernel; extract.py; the correspondence harness (differential, only generated schedules); the "
-                  "granularity of the atomic actions (one action = code between two synchronisation points; mutex, eventfd, "
-                  "condition-variable timed wait and pthread_join behave as specified - hypotheses, not verified). "
+    level_text = ("Lean 4 theorems about executable models of the event loop of both POSIX back ends (doorbell + completion "
+                  "ring; epoll/eventfd and poll/pipe are shown to be the same machine), async_queue (ring indices, "
+                  "drop-oldest / block-writer / fail; any number of writers asleep on the auto-reset event, clear at any "
+                  "moment), async_worker (create, thread wrapper, signal_stop, timed join), the console worker loop "
+                  "(terminates within five of its steps from every state at which stop is requested; chunk enqueued "
+                  "before its completion), the portable timer (stop flag, timed condition wait, join) and the "
+                  "heart-beat flag protocol (a tick is never swallowed by the clear and never leaves the backend in a "
+                  "blocking wait), quantified over every scheduler choice; the models are tied to the source by "
+                  "regenerated constants / operators / statement orders and by running the real code and the model on "
+                  "the same sequentialised schedules (identical traces); the Lean oracle judges every implementation "
+                  "trace, including real multi-thread runs; `judgeEv (events cmds) = []` is proved for all command lists")
+    level_note = ("trusted: Lean kernel; extract.py and the regexes of the translator (a shape they do not recognise is a "
+                  "broken tie, never a silent default); the correspondence harness (differential, only generated schedules); "
+                  "the granularity of the atomic actions (one action = code between two synchronisation points; mutex, eventfd, "
+                  "pipe, select with a finite time-out, condition-variable waits and pthread_join behave as specified - "
+                  "hypotheses, not verified); the poll back end is compiled by undefining __linux__ after all system "
+                  "headers were included (Linux pipe semantics, not BSD/macOS). "
                   "RUNTIME PART, NOT PROOF: the data-race clause is checked only by ThreadSanitizer on the executed runs")
     rule = ("cases = corpus + known-finding inputs + boundary list + seeded random sequentialised schedules (several logical "
-            "producers posting / waking / waiting with max 1..64; enqueue / dequeue on queues of capacity 1..5 under each "
-            "flag combination incl. invalid sizes and short buffers; worker create-held / release / step / stop / join(t) / "
-            "destroy at every phase; timer init / start / stop / restart / cleanup) + real multi-thread runs with seeded "
-            "yields; a case is non-trivial when its trace has >= 2 lines; distinct = distinct canonical implementation trace")
+            "producers posting / waking / waiting with max 1..64, a third of them on the poll back end; enqueue / dequeue / "
+            "clear on queues of capacity 1..5 under each flag combination incl. invalid sizes, short buffers and a blocked "
+            "writer; worker create-held / release / step / stop / join(t) / destroy at every phase, default and explicit "
+            "stack size; timer init / start / stop / restart / cleanup) + real multi-thread runs with seeded yields (post, "
+            "queue, qclear = several writers asleep while the consumer clears, worker, timer, console = the real console "
+            "worker on a pipe with shutdown at four stages of its life); a case is non-trivial when its trace has >= 2 "
+            "lines; distinct = distinct canonical implementation trace")
     not_covered = ["data races: runtime check only (ThreadSanitizer on the runs made), no proof",
-                   "kernel scheduling fairness; poll and IOCP back ends (not compiled on Linux); the poll back end mixes "
-                   "1-byte wake-ups with 8-byte completions in one pipe (read from the source, not executable here)",
-                   "heart_beat_flag: the race is shown with the real timer callback against the real call_heart_beat() "
-                   "(open known finding C19-heart-beat-flag-race); the full backend() loop is not run under ThreadSanitizer",
-                   "eventfd counter overflow after 2^64-2 un-waited doorbell writes",
-                   "several writers blocked at once on a BLOCK_WRITER queue are exercised only by the multi-thread runs"]
+                   "kernel scheduling fairness; the IOCP back end and async_worker_win32.c (Windows); BSD/macOS pipe and "
+                   "poll() semantics where they differ from Linux (the poll back end runs on Linux pipes here)",
+                   "the full backend() loop is not run under ThreadSanitizer; the heart-beat protocol theorems are about "
+                   "the model HbSys, tied to src/backend.c by the order of three statements (hb_protocol_eq) and the "
+                   "TSan run of the real callback against the real call_heart_beat - there is no trace-level "
+                   "correspondence for it",
+                   "eventfd counter overflow after 2^64-2 un-waited doorbell writes (post would return -1 although the "
+                   "completion is queued and delivered)",
+                   "async_runtime_wait: time-out conversion, EINTR, MAX_EVENTS clamp, socket readiness branch; "
+                   "async_runtime_add/modify/remove",
+                   "error paths of the constructors (calloc / pthread_create / event init failing)",
+                   "timer drift correction (next_tick arithmetic); platform_event_reset, timed event wait, mutex_trylock",
+                   "process_io console branch in src/comm.c (needs the initialised driver: C12/C13 harnesses)"]
 
     # ---- translator: ORDER of the state stores relative to the spawn / the user procedure -------------------
     STATE_NAMES = {"ASYNC_WORKER_STOPPED": "workerStopped", "ASYNC_WORKER_RUNNING": "workerRunning",
@@ -145,7 +184,8 @@ class C19(Prop):
         if not m1 or not m2:
             raise X.TieBroken("const:async_worker_join", "poll sleep / elapsed step of the timed join not recognised")
         b = lambda v: "true" if v else "false"
-        return "\n".join([
+        more = self._gen_round5(body_of, pos, b)
+        return "\n".join(more + [
             "/-- C: in `async_runtime_wait` the doorbell `read(event_fd)` stands before `pthread_mutex_lock(&ring_lock)` -/",
             "def waitReadsBellBeforeLock : Bool := " + b(rd < lk),
             "/-- C: in `async_runtime_wait` the re-arm `write(event_fd)` stands before the last `pthread_mutex_unlock` -/",
@@ -165,17 +205,199 @@ class C19(Prop):
             "/-- C: values stored into `worker->state` in `worker_thread_proc` after `worker->proc(...)` returned -/",
             "def wrapperStoresAfterProc : List Nat := " + fmt(wa)])
 
+    def _gen_round5(self, body_of, pos, b):
+        """translator, extension round: the poll back end, the hand-copied tests of async_queue, the loops of the
+        console worker and of the timer thread, the heart-beat flag protocol.  Everything the regexes do not
+        recognise raises TieBroken (the check then goes to its search stage)."""
+        import re
+        from nvlib import extract as X
+        rd = lambda rel: open(os.path.join(E.REPO, rel)).read()
+
+        def has(body, pat):
+            return re.search(pat, body) is not None
+
+        def need(body, pat, site):
+            m = re.search(pat, body)
+            if not m:
+                raise X.TieBroken(site, "`%s` not recognised" % pat)
+            return m
+
+        def ordered(body, pats):
+            """all patterns occur, each first occurrence behind the previous one"""
+            last = -1
+            for pt in pats:
+                m = re.search(pt, body[max(last, 0):])
+                if not m:
+                    return False
+                last = max(last, 0) + m.end()
+            return True
+        out = []
+        # -- poll back end --------------------------------------------------------------------------------------
+        po = rd("lib/async/async_runtime_poll.c")
+        mring = re.search(r"#\s*define\s+COMPLETION_RING_SIZE\s+(\d+)", po)
+        pw = body_of(po, "async_runtime_wait", "poll:async_runtime_wait")
+        pp = body_of(po, "async_runtime_post_completion", "poll:async_runtime_post_completion")
+        pk = body_of(po, "async_runtime_wakeup", "poll:async_runtime_wakeup")
+        ring_ok = mring is not None
+        out += ["/-- C (async_runtime_poll.c): `#define COMPLETION_RING_SIZE`; 0 = the back end has no completion ring -/",
+                "def pollCompletionRingSize : Nat := %d" % (int(mring.group(1)) if mring else 0),
+                "/-- C (poll): in `async_runtime_wait` the doorbell `read(notify_pipe[0])` loop stands before `pthread_mutex_lock(&ring_lock)`, the re-arm `write(notify_pipe[1])` between lock and unlock -/",
+                "def pollWaitOrder : Bool := " + b(ring_ok and ordered(pw, [
+                    r"read\s*\(\s*runtime->notify_pipe\[0\]", r"pthread_mutex_lock\s*\(\s*&runtime->ring_lock",
+                    r"ring_count\s*--", r"write\s*\(\s*runtime->notify_pipe\[1\]",
+                    r"pthread_mutex_unlock\s*\(\s*&runtime->ring_lock"])),
+                "/-- C (poll): `post_completion` = lock, full test `ring_count >= COMPLETION_RING_SIZE`, push, unlock, THEN the doorbell write -/",
+                "def pollPostOrder : Bool := " + b(ring_ok and ordered(pp, [
+                    r"pthread_mutex_lock\s*\(\s*&runtime->ring_lock", r"ring_count\s*>=\s*COMPLETION_RING_SIZE",
+                    r"ring_count\s*\+\+", r"pthread_mutex_unlock\s*\(\s*&runtime->ring_lock",
+                    r"write\s*\(\s*runtime->notify_pipe\[1\]"])),
+                "/-- C (poll): neither `wakeup` nor `post_completion` writes anything but single doorbell bytes into the pipe -/",
+                "def pollPipeIsDoorbellOnly : Bool := " + b(
+                    not has(pp, r"write\s*\([^;]*sizeof") and not has(pk, r"write\s*\([^;]*sizeof")
+                    and has(pk, r"write\s*\(\s*runtime->notify_pipe\[1\]\s*,\s*&\w+\s*,\s*1\s*\)"))]
+        # -- epoll back end: the full test of the ring ---------------------------------------------------------
+        ep = rd("lib/async/async_runtime_epoll.c")
+        epp = body_of(ep, "async_runtime_post_completion", "order:async_runtime_post_completion")
+        epw = body_of(ep, "async_runtime_wait", "order:async_runtime_wait")
+        m = need(epp, r"ring_count\s*(>=|>|==|<=|<|!=)\s*COMPLETION_RING_SIZE", "epoll:ring-full-test")
+        out += ["/-- C (epoll): comparison operator of the ring-full test `ring_count OP COMPLETION_RING_SIZE` in post_completion -/",
+                'def ringFullOp : String := "%s"' % m.group(1),
+                "/-- C (epoll): `wait` re-arms the doorbell exactly when entries remain: `if (runtime->ring_count > 0)` guards the write -/",
+                "def waitRearmsWhenEntriesRemain : Bool := " + b(has(
+                    epw, r"if\s*\(\s*runtime->ring_count\s*>\s*0\s*\)\s*\{[^}]*write\s*\(\s*runtime->event_fd")),
+                "/-- C (epoll): the copy-out loop is `while (runtime->ring_count > 0 && event_count < max_events)` -/",
+                "def waitTakesUpToMax : Bool := " + b(has(
+                    epw, r"while\s*\(\s*runtime->ring_count\s*>\s*0\s*&&\s*event_count\s*<\s*max_events\s*\)"))]
+        # -- async_queue ---------------------------------------------------------------------------------------
+        aq = rd("lib/async/async_queue.c")
+        qe = body_of(aq, "async_queue_enqueue", "queue:async_queue_enqueue")
+        qd = body_of(aq, "async_queue_dequeue", "queue:async_queue_dequeue")
+        qc = body_of(aq, "async_queue_clear", "queue:async_queue_clear")
+        m = need(qe, r"while\s*\(\s*queue->count\s*(>=|>|==|<=|<|!=)\s*queue->capacity\s*\)", "queue:full-test")
+        m2 = need(qe, r"size\s*(==|<=|<)\s*0\s*\|\|\s*size\s*(>=|>)\s*queue->max_msg_size", "queue:size-test")
+        m3 = need(qd, r"msg_size\s*(>=|>)\s*buffer_size", "queue:short-buffer-test")
+        out += ["/-- C: operator of the full test `while (queue->count OP queue->capacity)` in async_queue_enqueue -/",
+                'def enqFullOp : String := "%s"' % m.group(1),
+                "/-- C: operators of `size OP1 0 || size OP2 queue->max_msg_size` in async_queue_enqueue -/",
+                'def enqSizeOps : String × String := ("%s", "%s")' % (m2.group(1), m2.group(2)),
+                "/-- C: operator of the short-buffer test `msg_size OP buffer_size` in async_queue_dequeue -/",
+                'def deqShortOp : String := "%s"' % m3.group(1),
+                "/-- C: inside the full loop DROP_OLDEST is tested first, BLOCK_WRITER in its else branch, plain failure last -/",
+                "def enqDropBeforeBlock : Bool := " + b(ordered(qe, [
+                    r"if\s*\(\s*queue->flags\s*&\s*ASYNC_QUEUE_DROP_OLDEST\s*\)", r"queue->tail\s*=\s*\(queue->tail\s*\+\s*1\)\s*%\s*queue->capacity",
+                    r"queue->count\s*--", r"queue->dropped_count\s*\+\+",
+                    r"else\s+if\s*\(\s*queue->flags\s*&\s*ASYNC_QUEUE_BLOCK_WRITER\s*\)",
+                    r"platform_event_wait\s*\(\s*&queue->not_full\s*,\s*-1\s*\)", r"else\s*\{", r"return\s+false"])),
+                "/-- C: the slot is written at `head`, then `head = (head + 1) % capacity; count++; enqueue_count++` -/",
+                "def enqWritesAtHead : Bool := " + b(ordered(qe, [
+                    r"get_slot\s*\(\s*queue\s*,\s*queue->head\s*\)", r"queue->head\s*=\s*\(queue->head\s*\+\s*1\)\s*%\s*queue->capacity",
+                    r"queue->count\s*\+\+", r"queue->enqueue_count\s*\+\+"])),
+                "/-- C: dequeue reads the slot at `tail`, then `tail = (tail + 1) % capacity; count--; dequeue_count++` -/",
+                "def deqReadsAtTail : Bool := " + b(ordered(qd, [
+                    r"queue->count\s*==\s*0", r"get_slot\s*\(\s*queue\s*,\s*queue->tail\s*\)",
+                    r"queue->tail\s*=\s*\(queue->tail\s*\+\s*1\)\s*%\s*queue->capacity", r"queue->count\s*--",
+                    r"queue->dequeue_count\s*\+\+"])),
+                "/-- C: EVERY successful dequeue of a BLOCK_WRITER queue sets `not_full` (the set is guarded by the flag test only) -/",
+                "def deqAlwaysSignals : Bool := " + b(has(
+                    qd, r"queue->dequeue_count\s*\+\+\s*;\s*if\s*\(\s*queue->flags\s*&\s*ASYNC_QUEUE_BLOCK_WRITER\s*\)\s*\{\s*platform_event_set\s*\(\s*&queue->not_full\s*\)")),
+                "/-- C: `async_queue_clear` sets `not_full` on a BLOCK_WRITER queue (writers asleep on a full queue must be released) -/",
+                "def clearSignalsNotFull : Bool := " + b(has(
+                    qc, r"if\s*\(\s*queue->flags\s*&\s*ASYNC_QUEUE_BLOCK_WRITER\s*\)\s*\{?\s*platform_event_set\s*\(\s*&queue->not_full\s*\)"))]
+        # -- timed join: the loop condition and what follows it ---------------------------------------------------
+        wk = rd("lib/async/async_worker_pthread.c")
+        jb = body_of(wk, "async_worker_join", "const:async_worker_join")
+        mj = need(jb, r"while\s*\(\s*worker->state\s*(!=|==)\s*ASYNC_WORKER_STOPPED\s*&&\s*elapsed_ms\s*(<=|<|>=|>)\s*timeout_ms\s*\)",
+                  "join:loop-condition")
+        out += ["/-- C: operators of the timed join's loop `while (worker->state OP1 ASYNC_WORKER_STOPPED && elapsed_ms OP2 timeout_ms)` -/",
+                'def joinLoopOps : String × String := ("%s", "%s")' % (mj.group(1), mj.group(2)),
+                "/-- C: behind the loop `pthread_join` is called only under `if (worker->state == ASYNC_WORKER_STOPPED)` (then `return true`), otherwise `return false` -/",
+                "def joinJoinsOnlyWhenStopped : Bool := " + b(ordered(jb, [
+                    r"nanosleep\s*\(", r"elapsed_ms\s*\+=", r"if\s*\(\s*worker->state\s*==\s*ASYNC_WORKER_STOPPED\s*\)\s*\{\s*pthread_join\s*\(\s*worker->thread\s*,\s*NULL\s*\)\s*;\s*return\s+true\s*;\s*\}\s*return\s+false"]))]
+        # -- sync.cpp: the auto-reset event ------------------------------------------------------------------------
+        sy = rd("lib/port/sync.cpp")
+        ew = body_of(sy, "platform_event_wait", "sync:platform_event_wait")
+        es = body_of(sy, "platform_event_set", "sync:platform_event_set")
+        out += ["/-- C++: `platform_event_set` stores `signaled = true` under the event's mutex; a wait consumes it only for auto-reset events (`if (!impl->manual_reset) impl->signaled = false`), in all three branches -/",
+                "def eventIsLevelTriggered : Bool := " + b(
+                    ordered(es, [r"lock_guard", r"impl->signaled\s*=\s*true", r"notify_"]) and
+                    len(re.findall(r"if\s*\(\s*(?:result\s*&&\s*)?!impl->manual_reset\s*\)\s*\{\s*impl->signaled\s*=\s*false", ew)) == 3 and
+                    has(ew, r"cv\.wait\s*\(\s*lock\s*,\s*\[impl\]\s*\{\s*return\s+impl->signaled;\s*\}\s*\)"))]
+        # -- console worker ------------------------------------------------------------------------------------
+        cw = rd("lib/async/console_worker.c")
+        cp = body_of(cw, "console_worker_proc_posix", "console:console_worker_proc_posix")
+        cs = body_of(cw, "console_worker_shutdown", "console:console_worker_shutdown")
+        msec = need(cp, r"timeout\.tv_sec\s*=\s*(\d+)\s*;", "console:select-timeout")
+        musec = need(cp, r"timeout\.tv_usec\s*=\s*(\d+)\s*;", "console:select-timeout")
+        cm = rd("src/comm.c")
+        mq = need(cm, r"g_console_queue\s*=\s*async_queue_create\s*\(\s*(\d+)\s*,\s*CONSOLE_MAX_LINE\s*,\s*([A-Z_|\s]+)\)", "console:queue-flags")
+        names = {"ASYNC_QUEUE_DROP_OLDEST": "queueDropOldest", "ASYNC_QUEUE_BLOCK_WRITER": "queueBlockWriter",
+                 "ASYNC_QUEUE_SIGNAL_ON_DATA": "queueSignalOnData", "ASYNC_QUEUE_NONE": "0"}
+        fl = []
+        for t in mq.group(2).split("|"):
+            t = t.strip()
+            if t not in names:
+                raise X.TieBroken("console:queue-flags", "unknown flag `%s`" % t)
+            fl.append(names[t])
+        out += ["/-- C (src/comm.c): flags of the console line queue `async_queue_create(N, CONSOLE_MAX_LINE, FLAGS)` -/",
+                "def consoleQueueFlags : Nat := " + " ||| ".join(fl),
+                "/-- C (src/comm.c): capacity of the console line queue -/",
+                "def consoleQueueCapacity : Nat := %s" % mq.group(1),
+                "/-- C: `select()` time-out of the console worker loop, µs (finite: the stop flag is polled) -/",
+                "def consoleSelectTimeoutUs : Nat := %d" % (int(msec.group(1)) * 10 ** 6 + int(musec.group(1))),
+                "/-- C: the loop is `while (!async_worker_should_stop(...))`, then select → read → async_queue_enqueue → async_runtime_post_completion -/",
+                "def consoleLoopOrder : Bool := " + b(ordered(cp, [
+                    r"while\s*\(\s*!async_worker_should_stop\s*\(\s*async_worker_current\s*\(\s*\)\s*\)\s*\)", r"\bselect\s*\(",
+                    r"\bread\s*\(\s*STDIN_FILENO", r"async_queue_enqueue\s*\(", r"async_runtime_post_completion\s*\("])),
+                "/-- C: a select time-out (`ret == 0`) and EINTR `continue` (back to the stop test); errors and EOF `break` -/",
+                "def consoleLoopExits : Bool := " + b(
+                    has(cp, r"ret\s*==\s*0\s*\)\s*\{\s*continue\s*;") and has(cp, r"bytes_read\s*==\s*0\s*\)\s*\{[^}]*break\s*;")
+                    and len(re.findall(r"\bbreak\s*;", cp)) == 3 and len(re.findall(r"\bcontinue\s*;", cp)) == 3),
+                "/-- C: `console_worker_shutdown` = `async_worker_signal_stop` then `async_worker_join(worker, timeout_ms)` -/",
+                "def consoleShutdownOrder : Bool := " + b(ordered(cs, [r"async_worker_signal_stop\s*\(", r"return\s+async_worker_join\s*\("]))]
+        # -- timer thread --------------------------------------------------------------------------------------
+        tc = rd("lib/port/timer.cpp")
+        tf = body_of(tc, "timer_thread_func", "timer:timer_thread_func")
+        ts = body_of(tc, "platform_timer_stop", "timer:platform_timer_stop")
+        out += ["/-- C++: timer loop = `while (!stop_requested)` { timed `wait_until`; `if (stop_requested) break`; callback only on time-out while active } -/",
+                "def timerLoopOrder : Bool := " + b(ordered(tf, [
+                    r"while\s*\(\s*!internal->stop_requested\.load\(\)\s*\)", r"cv\.wait_until\s*\(\s*lock\s*,\s*next_tick\s*\)",
+                    r"if\s*\(\s*internal->stop_requested\.load\(\)\s*\)\s*\{\s*break\s*;",
+                    r"status\s*==\s*std::cv_status::timeout\s*&&\s*internal->active\.load\(\)\s*&&\s*internal->callback",
+                    r"internal->callback\s*\(\s*\)"])),
+                "/-- C++: stop = `active = false`; `stop_requested = true`; notify_all under the mutex; join; only then `callback = nullptr` -/",
+                "def timerStopOrder : Bool := " + b(ordered(ts, [
+                    r"internal->active\.store\s*\(\s*false\s*\)", r"internal->stop_requested\.store\s*\(\s*true\s*\)",
+                    r"lock_guard", r"cv\.notify_all\s*\(\s*\)", r"timer_thread\.join\s*\(\s*\)", r"internal->callback\s*=\s*nullptr"]))]
+        # -- heart-beat flag -----------------------------------------------------------------------------------
+        be = rd("src/backend.c")
+        hc = body_of(be, "heartbeat_timer_callback", "hb:heartbeat_timer_callback")
+        ch = body_of(be, "call_heart_beat", "hb:call_heart_beat")
+        acc = has(be, r"#\s*define\s+HEART_BEAT_FLAG\(\)\s+platform_atomic_load_int\s*\(\s*&heart_beat_flag\s*\)") and \
+            has(be, r"#\s*define\s+SET_HEART_BEAT_FLAG\(v\)\s+platform_atomic_store_int\s*\(\s*&heart_beat_flag") and \
+            len(re.findall(r"\bheart_beat_flag\b", re.sub(r"//[^\n]*", " ", re.sub(r"/\*.*?\*/", " ", be, flags=re.S)))) == 3
+        first_stmt = re.search(r"^\s*object_t\s*\*\s*ob\s*;\s*SET_HEART_BEAT_FLAG\s*\(\s*0\s*\)\s*;", ch) is not None
+        out += ["/-- C: heart_beat_flag is touched only through the atomic accessors (definition + the two macros are its only mentions) -/",
+                "def hbFlagAtomicOnly : Bool := " + b(acc),
+                "/-- C: `SET_HEART_BEAT_FLAG(0)` is the first statement of call_heart_beat (before the round), and the round is `while (!HEART_BEAT_FLAG())` -/",
+                "def hbClearsFlagFirst : Bool := " + b(first_stmt and has(ch, r"while\s*\(\s*!HEART_BEAT_FLAG\s*\(\s*\)\s*\)")),
+                "/-- C: the timer callback stores the flag BEFORE it wakes the event loop -/",
+                "def hbStoresBeforeWakeup : Bool := " + b(ordered(hc, [r"SET_HEART_BEAT_FLAG\s*\(\s*1\s*\)", r"async_runtime_wakeup\s*\("]))]
+        return out
+
     # ---- build / run -----------------------------------------------------
+    @staticmethod
+    def SOURCES():
+        # c19poll.c = lib/async/async_runtime_poll.c compiled on Linux (cases starting with `#poll`)
+        return [os.path.join(E.VERIF, "harness/c19/c19.c"), os.path.join(E.VERIF, "harness/c19/c19poll.c")]
+
     def prepare(self, ctx):
-        src = [os.path.join(E.VERIF, "harness/c19/c19.c")]
-        self.exe = E.compile_harness("c19", src, with_common=False)
+        self.exe = E.compile_harness("c19", self.SOURCES(), with_common=False)
         self.tsan_exe = None
         self._raw = {}
 
     def tsan(self):
         if self.tsan_exe is None:
-            self.tsan_exe = E.compile_harness("c19", [os.path.join(E.VERIF, "harness/c19/c19.c")], kind="tsan",
-                                              with_common=False)
+            self.tsan_exe = E.compile_harness("c19", self.SOURCES(), kind="tsan", with_common=False)
         return self.tsan_exe
 
     def hb(self):
@@ -244,6 +466,10 @@ class C19(Prop):
         mk("split-wait-misuse", ["wread", "wend", "wbegin 4", "post 1 1 1", "wbegin 4", "wend", "wait 4", "wbegin 4", "wait 4",
                                  "wend", "wread", "wread", "wend", "wait 4"])
         mk("ring-full", ["post 1 5 %d" % i for i in range(1026)] + ["wait 64"] * 17 + ["post 1 6 6", "wait 64"])
+        # more completions than MAX_EVENTS (64, the size of the epoll_wait array) in ONE wait: the copy-out loop is
+        # bounded by the caller's max_events, not by the clamp
+        mk("wait-beyond-max-events", ["post %d 9 %d" % (1 + i % 3, i) for i in range(150)] + ["wait 200", "wait 200",
+                                      "post 1 9 1", "wait 65", "wait 65"])
         # confirmed defect 2 (repaired): timed join before the thread stored RUNNING
         mk("join-before-running", ["wnew 1 hold", "wstate 1", "wjoin 1 50", "wrelease 1", "wstop 1", "wstep 1", "wjoin 1 50",
                                    "wstate 1", "wdestroy 1"])
@@ -289,6 +515,31 @@ class C19(Prop):
             mk("tsan-" + name, ["#tsan"] + lines)
         # repaired: heart_beat_flag raced between the timer thread and the backend (real callback vs real call_heart_beat)
         mk("tsan-heart-beat-flag", ["#tsan-hb", "hbrace 60"])
+        # the real callback run INSIDE the real call_heart_beat (interposed time()): the tick must still be owed
+        mk("heart-beat-tick-in-round", ["#tsan-hb", "hbowed", "hbowed"])
+        # repaired: async_queue_clear left a writer blocked on the full queue asleep (nothing ever set not_full again)
+        mk("queue-clear-blocked-writer", ["qnew 1 8 2", "enq 1 1 8", "enq 2 7 8", "qclear", "qstat", "deq 8", "deq 8", "qstat"])
+        mk("queue-clear-blocked-writer-cap2", ["qnew 2 8 2", "enq 1 1 8", "enq 1 2 8", "enq 2 1 8", "qclear", "qstat", "enq 1 3 8",
+                                               "enq 1 4 8", "qclear", "deq 8", "qstat"])
+        mk("mt-qclear", ["mt qclear 1 3 40 1"])
+        mk("mt-qclear-cap2", ["mt qclear 2 4 60 2"])
+        mk("tsan-qclear", ["#tsan", "mt qclear 2 3 40 7"])
+        # the real console worker on a pipe: chunk-then-completion, shutdown at every stage of its life
+        for mode in (0, 1, 2, 3):
+            mk("mt-console-%d" % mode, ["mt console %d %d %d" % (300 if mode != 2 else 5, mode, mode + 1)])
+        mk("tsan-console", ["#tsan", "mt console 200 1 9"])
+        # the POLL back end (lib/async/async_runtime_poll.c compiled on Linux by harness/c19/c19poll.c): same commands,
+        # same model.  Repaired: a 1-byte wake-up in front of an 8-byte completion record shifted the stream (garbled
+        # key, completion lost); records beyond max_events were read and thrown away; key/data cut to 32 bits
+        mk("poll-wakeup-then-post", ["#poll", "wakeup", "post 1 4097 7", "wait 8", "wait 8"])
+        mk("poll-more-than-max", ["#poll", "post 1 1 1", "post 2 2 2", "post 1 3 3", "wait 1", "wait 1", "wait 1", "wait 1"])
+        rt_names = ("posts-pile-up", "console-key-twice", "wakeup-only", "zero-key-zero-data", "wide-key-data",
+                    "wakeup-in-window", "post-before-doorbell-read", "post-after-doorbell-read", "post-in-both-windows",
+                    "split-wait-misuse", "ring-full", "wait-beyond-max-events", "mt-post")
+        for c in list(B):
+            if c.id[2:] in rt_names:
+                mk("poll-" + c.id[2:], ["#poll"] + c.lines)
+        mk("tsan-poll-post", ["#tsan", "#poll", "mt post 3 200 4 5"])
         return B
 
     def gen_rt(self, rng, n):
@@ -395,6 +646,8 @@ class C19(Prop):
         kind = rng.weighted([("rt", 5), ("q", 6), ("w", 4), ("t", 2), ("mix", 2), ("mt", 2)])
         if kind == "rt":
             L = self.gen_rt(rng, rng.range(4, 40))
+            if rng.chance(1, 3):
+                L = ["#poll"] + L
         elif kind == "q":
             L = self.gen_q(rng, rng.range(4, 40))
         elif kind == "w":
@@ -412,7 +665,11 @@ class C19(Prop):
                              "mt queue %d %d %d %d %d" % (rng.choice([0, 1, 2, 4, 5, 6]), rng.range(1, 8), rng.range(1, 5),
                                                           rng.range(50, 300), rng.below(10 ** 6)),
                              "mt worker %d %d" % (rng.range(2, 6), rng.below(10 ** 6)),
+                             "mt qclear %d %d %d %d" % (rng.range(1, 4), rng.range(2, 6), rng.range(20, 80), rng.below(10 ** 6)),
+                             "mt console %d %d %d" % (rng.range(20, 600), rng.range(0, 3), rng.below(10 ** 6)),
                              "mt timer %d %d %d" % (rng.range(1, 4), rng.range(10, 40), rng.below(10 ** 6))])]
+            if L[0].startswith("mt post") and rng.chance(1, 3):
+                L = ["#poll"] + L
             if tier == "thorough" and rng.chance(1, 3):
                 L = ["#tsan"] + L
         return E.Case(cid, L, {"origin": "generated", "kind": kind})
@@ -457,6 +714,8 @@ class C19(Prop):
                 h[key] = h.get(key, 0) + 1
             if "#tsan" in c.lines:
                 h["tsan-cases"] = h.get("tsan-cases", 0) + 1
+            if "#poll" in c.lines:
+                h["poll-backend-cases"] = h.get("poll-backend-cases", 0) + 1
         return h
 
 
